@@ -195,4 +195,13 @@ def obsOf (t : RState × ROp × RState × ROut) : RObs :=
   let vs := match op with | .setMax _ => false | _ => true
   ⟨vu, vs, s'.value, s.max, s'.max, out.complete⟩
 
+/-- the value an operation hands to `_set_value` in the state `pre` (event.py:263-289: `increment`, the `value` setter,
+`set_complete`); `none`: the operation does not call `_set_value` (`value_max` setter, `reset`) -/
+def valueSet (pre : RState) : ROp → Option Int
+  | .increment => some (pre.value + 1)
+  | .setValue v => some v
+  | .setComplete => some pre.max
+  | .setMax _ => none
+  | .reset _ => none
+
 end PhyVerif.C19
